@@ -49,6 +49,26 @@ def limb_product(m, nlimbs, level):
     return dedup(out)
 
 
+def half_limb_product(m, nlimbs, rich=False):
+    """Operands for doubling / shifting operations: the decision points of 2a >= m lie at a = m/2, so the per-limb alphabet is
+    built from the limbs of m >> 1 (h_i - 1, h_i, h_i + 1) together with 0 and 2^64-1 (and 2^63, 2^63-1 when rich): all 2a whose
+    leading limbs coincide with the modulus' and whose lower limbs sit at either extreme are produced."""
+    hl = limbs(m >> 1, nlimbs)
+    per = []
+    for i in range(nlimbs):
+        vals = [0, 2**64 - 1, (hl[i] - 1) % 2**64, hl[i], (hl[i] + 1) % 2**64]
+        if rich:
+            vals += [2**63, 2**63 - 1, 1]
+        per.append(dedup(vals))
+    out = []
+    for combo in itertools.product(*per):
+        v = 0
+        for i, l in enumerate(combo):
+            v |= l << (64 * i)
+        out.append(v)
+    return dedup(out)
+
+
 def boundary(m, bits, seed, nfill=16, tag="B"):
     """Named boundary values B(m) (all reduced into [0, m))."""
     R = pow(2, bits, m)
